@@ -15,3 +15,15 @@ type Session struct {
 	Salt     int64
 	Hostname string
 }
+
+// clone returns a session that shares no memory with s.
+func (s *Session) clone() *Session {
+	c := *s
+	if s.Key != nil {
+		c.Key = append(make([]byte, 0, len(s.Key)), s.Key...)
+	}
+	if s.Hash != nil {
+		c.Hash = append(make([]byte, 0, len(s.Hash)), s.Hash...)
+	}
+	return &c
+}
